@@ -215,6 +215,28 @@ pub fn rec_msm(a: &Args, out: &mut Out) {
                         if c2.len() <= 64 {
                             emit_case(&mut r, out, num, g, &t, sats.clone(), c2, "dup-cell");
                         }
+                        // a duplicate that makes the NUMBER of cell rows equal to the size of the mask grid (one cell of the
+                        // full grid missing, another listed twice), for several grid shapes
+                        for (ns2, ng2) in [(2usize, 2usize), (3, 2), (2, 3), (4, 4), (1, 2)] {
+                            if sigs.len() < ng2 {
+                                continue;
+                            }
+                            let s2: Vec<u8> = (0..ns2).map(|i| 3 + 7 * i as u8).collect();
+                            let mut c2: Vec<(u8, u8, char)> = vec![];
+                            for s in &s2 {
+                                for sg in sigs.iter().take(ng2) {
+                                    c2.push((*s, sg.0, sg.1));
+                                }
+                            }
+                            let last = c2.pop().unwrap(); // drop the last cell of the grid ...
+                            let dup = c2[r.gen_range(0..c2.len())];
+                            c2.push(dup); // ... and list another one twice
+                            let _ = last;
+                            if k % 2 == 0 {
+                                shuffle(&mut r, &mut c2);
+                            }
+                            emit_case(&mut r, out, num, g, &t, s2, c2, "dup-cell");
+                        }
                     }
                     4 => {
                         // satellite row without cells
